@@ -4,6 +4,7 @@ package main
 // predicate trees, statement rendering, event recording.
 
 import (
+	"runtime"
 	"github.com/ryogrid/SamehadaDB/lib/samehada/samehada_util"
 	"fmt"
 	"math"
@@ -263,9 +264,12 @@ func (s *sqlRun) emit(ev map[string]interface{}) {
 // watch arms a watchdog for one engine call: an engine call that does not return within the limit is
 // recorded as a "hang" outcome of that call and the driver process ends (exit code 3, trace flushed).
 func (s *sqlRun) watch(ev map[string]interface{}) *time.Timer {
-	return time.AfterFunc(40*time.Second, func() {
+	// (120 s: a statement of these workloads takes milliseconds; the limit is far above what an overloaded machine adds)
+	return time.AfterFunc(120*time.Second, func() {
 		ev["res"] = "hang"
 		ev["ctx"] = s.ctx
+		buf := make([]byte, 1<<16)
+		ev["stacks"] = string(buf[:runtime.Stack(buf, true)]) // where the engine is stuck (diagnosis only)
 		if _, ok := ev["rows"]; !ok {
 			ev["rows"] = [][]int{}
 		}
